@@ -8,7 +8,7 @@
    Conditions, loop bounds and expression statements have no typing effect and are not
    part of the syntax.  Faithful to the code including its defects. *)
 From Coq Require Import ZArith QArith List Bool.
-From RV Require Import Base.Wire Base.Text Lang.PyAst Lang.PySem Lang.Infer.
+From RV Require Import Base.Wire Base.Text Lang.PyAst Lang.PySem Lang.Infer Lang.InferGuard Lang.InferComp.
 Import ListNotations.
 Open Scope Z_scope.
 
@@ -19,6 +19,7 @@ Inductive stmt : Type :=
 | SWhile (body : block)
 | SFor (i : ident) (body : block)                  (* for i in range(n) *)
 | SReturn (e : option pexpr)
+| SAssignR (x : ident) (r : rhs)                   (* x = [elt for t in range(n)]  (Lang/InferComp.v) *)
 with block : Type := BNil | BCons (s : stmt) (r : block)
 with branches : Type := BrNil | BrCons (b : block) (r : branches)
 with oblock : Type := ONone | OSome (b : block).
@@ -107,6 +108,32 @@ Section Block.
                                    (st_decls st ++ [(x, cpp_type t)]) (add_label (st_acc st) x t))
     end.
 
+  (* the same with a comprehension on the right: _to_c_expr and _infer_expr_type both bracket the target
+     (set "int", work on the element, restore); their net effect on var_types is the one of [infer_rhs] *)
+  Definition infer_rd (s : S) (c : dctx) (r : rhs) : option (ty * dctx * S) :=
+    match infer_rhs (S * option pmap) (call (d_decl c)) C (s, d_promo c) (d_types c) r with
+    | None => None
+    | Some (t, G1, (s1, p1)) => Some (t, mk_dctx G1 (d_decl c) p1, s1)
+    end.
+  Definition do_assign_r (s : S) (st : bstate) (x : ident) (r : rhs) : option (S * bstate) :=
+    match infer_rd s (st_ctx st) r with
+    | None => None
+    | Some (t, c1, s1) =>
+        let existing := tlookup x (d_types c1) in
+        let is_declared := tmem x (d_decl c1) in
+        let clash :=
+          match existing with
+          | Some (TList oe) => is_declared && (negb (is_list_ty t) || negb (ty_eqb oe (list_elem t)))
+          | _ => false
+          end in
+        if clash then None
+        else
+          let c2 := mk_dctx (tset (d_types c1) x t) (d_decl c1) (d_promo c1) in
+          if is_declared then Some (s1, mk_bstate c2 (st_decls st) (add_label (st_acc st) x t))
+          else Some (s1, mk_bstate (mk_dctx (d_types c2) (d_decl c2 ++ [x]) (d_promo c2))
+                                   (st_decls st ++ [(x, cpp_type t)]) (add_label (st_acc st) x t))
+    end.
+
   (* lines 1828-1852: never declares *)
   Definition do_aug (s : S) (st : bstate) (x : ident) (op : binop) (e : pexpr) : option (S * bstate) :=
     match op with
@@ -155,6 +182,7 @@ Section Block.
     | SAssign v e => do_assign s st v e
     | SAug v op e => do_aug s st v op e
     | SReturn e => do_return s st e
+    | SAssignR v r => do_assign_r s st v r
     | SIf brs els =>
         let base := st_ctx st in
         match run_branches s base (d_promo base) (st_acc st) brs with
